@@ -150,7 +150,7 @@ for t in BLKS + [TY["UNDEF"], TY["BOUND"]]:
 add("P 0 0 0 F 1 0 0 E", kind="vararg-noargs")
 for nres, nops in ((1, 0), (1, 2), (0, 1), (2, 1), (2, 3), (0, 2)):
     add("P 0 0 0 F 0 %d %s 0 %s E" % (nres, " ".join([str(I64)] * nres), insn("RET", ["r.i"] * nops)),
-        kind="ret-count", nres=nres, nops=nops, sig="C15:ret-count-null-deref")
+        kind="ret-count", nres=nres, nops=nops)
 add("P 0 0 0 F 0 2 %d %d 0 %s E" % (I64, D_, insn("RET", ["i", "r.d"])), kind="ret-ok")
 add("P 0 0 0 F 0 0 0 %s %s E" % (insn("RET", []), insn("JRET", ["r.i"])), kind="ret-jret-mix")
 add("P 0 0 0 F 0 0 0 %s %s E" % (insn("JRET", ["r.i"]), insn("RET", [])), kind="ret-jret-mix")
@@ -193,7 +193,7 @@ for pi, pr in enumerate(PROTOS):
     pre = "P 0 0 0 %s F 1 0 1 %d a0" % (proto_dir(pr), I64)
     g = good_ops(pr)
     for cn in CALLS:
-        sg = "C15:jcall-args-unchecked" if cn == "JCALL" else None
+        sg = None
         add("%s %s E" % (pre, insn(cn, g)), kind="call-ok", proto=pi, code=cn, sig=sg)
         add("%s %s E" % (pre, insn(cn, g[:-1])), kind="call-count", proto=pi, code=cn, sig=sg)
         for extra in ("r.i", "f", mem(TY["BLK"], 8), mem(TY["RBLK"], 8), "r.u"):
@@ -215,7 +215,7 @@ for pi, pr in enumerate(PROTOS):
                 ops = list(g)
                 ops[1] = k
                 add("%s %s E" % (pre, insn(cn, ops)), kind="call-target", proto=pi, code=cn, tok=k,
-                    sig="C15:call-ref-not-callable" if k in ("ref.data", "ref.bss", "ref.p0") else sg)
+                    sig=sg)
             for k in ("r.i", "ref.func", "i", "ref.p0", "L"):
                 ops = list(g)
                 ops[0] = k
